@@ -417,6 +417,17 @@ def tensor(vk, cfg):
         vk.real(M.linsteps)
         if not vk.sym:
             return
+        # symbolic break points (all real milestone values; the NUMBER of points and of steps is concrete): the real linsteps on
+        # ring elements, sample k of interval i is p_i + k (p_(i+1) - p_i) / num_i, the end point is p_last
+        for npt, num, endpoint in ((2, 3, True), (3, 2, True), (3, [1, 3], False), (4, [2, 1, 3], True), (1, 2, True)):
+            P = vk.reals(f"p{npt}", (npt,), near=0.5, spread=1.0)
+            nums = list(np.tile(np.array([num]).ravel(), max(1, npt - 1))[: max(1, npt - 1)]) if np.ndim(num) == 0 else list(num)
+            r = M.linsteps(P, num=num, endpoint=endpoint)
+            exp = [P[i] + (P[i + 1] - P[i]) * k / int(nums[i]) for i in range(npt - 1) for k in range(int(nums[i]))] + ([P[-1]] if endpoint else [])
+            tag = f"linsteps(points[{npt}], num={num}, endpoint={endpoint})"
+            vk.ensures_true(f"{tag}/number of samples == sum(num)" + (" + 1" if endpoint else ""), len(r) == len(exp), f"{len(r)} vs {len(exp)}", backend="exec")
+            if len(r) == len(exp):
+                vk.ensures_eq(f"{tag}/sample k of interval i == p_i + k (p_(i+1) - p_i) / num_i", np.asarray(r, dtype=object), np.array(exp, dtype=object))
         # closed form on concrete break points (np.linspace is real numpy on floats): bounded in the
         # number of break points / steps, exact in the values
         import fractions
